@@ -1216,3 +1216,149 @@ def c02_driver_step(K, frozen=()):
             out.append(struct(o + '.returns-last', res is prev, 'returns the last sweep\'s result', fn))
         return out
     return go()
+
+
+# ---------------------------------------------------------------- C02: the constant-parameter 1-D driver assembles the same system as the C kernel contract
+def c02_const_1d(n):
+    """_one_pop_const_params on a grid of n symbolic points (use_delj_trick off), one step (T - initial_t <= dt):
+    tridiag.tridiag(a, b', c, r) receives entry by entry the a, b + abs + 1/dt, c of the contract of compute_abc_nobc (contracts/c_shared.abc_closed)
+    for V = x(1-x)/nu (beta+1)^2/(4 beta), M = 2 gamma x(1-x)(h+(1-2h)x) at the midpoints, Delta the trapezoid factors, delj = 1/2, and r = (phi + influx)/dt:
+    the same linear system as implicit_1Dx (C02 kernel contract), so constant and time-function parameters take the same step."""
+    oid = 'C02/Integration.py:_one_pop_const_params/system.n%d' % n
+    fn = 'dadi/Integration.py::_one_pop_const_params'
+
+    @guarded(oid, fn)
+    def go():
+        from contracts import c_shared as CS
+        T, t0 = z3.Reals('T t0')
+        nu, g, h, th, beta = z3.Reals('nu gamma h theta0 beta')
+        xs = reals('x', n)
+        ph = reals('phi', n)
+        hy = [T > t0, nu > 0, beta > 0, th >= 0, xs[0] >= 0] + [xs[i] < xs[i + 1] for i in range(n - 1)]
+
+        def policy(fr):
+            if fr.qualname == '_compute_dt':
+                def cdt(ex_, f_, a, k_):
+                    d = ex_.ctx.fresh('dt')
+                    ex_.ctx.pc += [d >= T - t0, d > 0]
+                    return d
+                return cdt
+            if fr.qualname in ('_Mfunc1D', '_Vfunc', '_compute_dfactor', '_compute_delj', '_inject_mutations_1D', '_one_pop_const_params'):
+                return 'inline'
+            return 'abstract'
+        ex = Executor(policy=policy, max_paths=64)
+        ex.module_overrides[('dadi.Integration', 'use_delj_trick')] = False
+        ex.module_overrides[('dadi.Integration', 'cuda_enabled')] = False
+        f = ex.func('dadi/Integration.py', '_one_pop_const_params')
+        paths = ex.explore(lambda e: e.apply(f.node, None, f.mod, [VList(ph, 'ndarray'), VList(xs, 'ndarray'), T], dict(nu=nu, gamma=g, h=h, theta0=th, initial_t=t0, beta=beta), 'f'), base_pc=hy)
+        rets = [p for p in paths if p.outcome == 'return']
+        out = []
+        if not rets:
+            return [struct(oid, False, 'no returning path: %r' % paths[:2], fn, undecided=True)]
+        V = lambda x: x * (1 - x) / nu * ((beta + 1) * (beta + 1)) / (4 * beta)
+        Mf = lambda x: 2 * g * x * (1 - x) * (h + (1 - 2 * h) * x)
+        X = lambda k: xs[k]
+        N = n
+        dx = lambda k: xs[k + 1] - xs[k]
+        xi = lambda k: (xs[k + 1] + xs[k]) / 2
+        Delta = lambda k: 2 / dx(0) if k == 0 else (2 / dx(N - 2) if k == N - 1 else 2 / (dx(k) + dx(k - 1)))
+        at = lambda k: Mf(xi(k)) * CS.HALF + V(xs[k]) / (2 * dx(k))
+        ct = lambda k: -Mf(xi(k)) * (1 - CS.HALF) + V(xs[k + 1]) / (2 * dx(k))
+        sa = lambda k: z3.RealVal(0) if k == 0 else -Delta(k) * at(k - 1)
+        sc = lambda k: z3.RealVal(0) if k == N - 1 else -Delta(k) * ct(k)
+        sb0 = lambda k: (Delta(k) * at(k) if k <= N - 2 else 0) + (Delta(k) * ct(k - 1) if k >= 1 else 0)
+        for pi, p in enumerate(rets):
+            o = '%s.path%d' % (oid, pi)
+            calls = [t for (tag, nm, t) in [e for e in p.log if e[0] == 'call'] if 'tridiag' in nm]
+            if len(calls) != 1:
+                out.append(struct(o + '.one-solve', False, '%d tridiagonal solves in one step' % len(calls), fn, undecided=True))
+                continue
+            pos = [x for x in calls[0].args if not (isinstance(x, tuple) and x and x[0] == 'kw')]
+            a, b, c, r = pos[:4]
+            if not all(isinstance(v, VList) and len(v.items) == n for v in (a, b, c, r)):
+                out.append(struct(o + '.shapes', False, 'tridiag arguments are not length-%d vectors' % n, fn, undecided=True))
+                continue
+            dt = T - t0
+            M0, Mn = Mf(xs[0]), Mf(xs[n - 1])
+            for k in range(n):
+                absk = z3.RealVal(0)
+                if k == 0:
+                    absk = z3.If(M0 <= 0, (CS.HALF / nu - M0) * 2 / dx(0), z3.RealVal(0))
+                if k == n - 1:
+                    absk = absk + z3.If(Mn >= 0, (CS.HALF / nu + Mn) * 2 / dx(n - 2), z3.RealVal(0))
+                from contracts.c_verify import _resolve
+                hyp = p.pc
+                out.append(prove_eq('%s.a[%d]' % (o, k), hyp, a.items[k], sa(k), func=fn, timeout_ms=30000, finding_key='C02/const1d/a'))
+                out.append(prove_eq('%s.c[%d]' % (o, k), hyp, c.items[k], sc(k), func=fn, timeout_ms=30000, finding_key='C02/const1d/c'))
+                out.append(prove_eq('%s.b[%d]' % (o, k), hyp, to_real(b.items[k]), _resolve(1 / dt + sb0(k) + absk, hyp), func=fn, timeout_ms=30000, finding_key='C02/const1d/b'))
+                infl = dt * th / 2 / xs[1] * 2 / (xs[2] - xs[0]) if k == 1 else 0
+                out.append(prove_eq('%s.r[%d]' % (o, k), hyp, r.items[k], (ph[k] + infl) / dt, func=fn, timeout_ms=30000, finding_key='C02/const1d/r'))
+            out.append(struct(o + '.returns-solution', p.value is calls[0], 'returns the solver result', fn))
+        out.append(struct(oid + '.paths', len(rets) >= 1, '%d returning paths (boundary-term branches)' % len(rets), fn))
+        return out
+    return go()
+
+
+def c17_integrate_1d():
+    """Cache1D.integrate = theta * ( trapz(pdf(-g_i) S_i over the cached negative gammas) + S_neutral * int_0^{|g_min|} pdf + S_0 * int_{|g_max|}^inf pdf ),
+    index 0 = most deleterious; exterior_int=False drops the two tails."""
+    oid = 'C17/Cache1D_mod.py:Cache1D.integrate'
+    fn = 'dadi/DFE/Cache1D_mod.py::Cache1D.integrate'
+
+    @guarded(oid, fn)
+    def go():
+        out = []
+        for ext in (True, False):
+            ex = Executor()
+            f = ex.func('dadi/DFE/Cache1D_mod.py', 'Cache1D.integrate')
+            n = 3
+            gs = reals('g', n)
+            S = [Tm('S%d' % i) for i in range(n)]
+            me = Tm('self')
+            me.attrs.update(neg_gammas=VList(gs, 'ndarray'), spectra=VList(S + [Tm('S_pos')], 'ndarray'), neu_spec=Tm('S_neu'))
+            theta = z3.Real('theta')
+            pdf = uf('pdf')
+            params = Tm('params')
+            sel = PyFn(lambda x, p: VList([pdf(to_real(v)) for v in x.items], 'ndarray') if isinstance(x, VList) else Tm('pdf_call', x, p), 'sel_dist')
+            paths = ex.run(f, [me, params, None, sel, theta], dict(exterior_int=ext))
+            tag = 'with-tails' if ext else 'interior-only'
+            if len(paths) != 1 or paths[0].outcome != 'return':
+                out.append(struct('%s.%s' % (oid, tag), False, 'expected one returning path: %r' % paths[:2], fn, undecided=True))
+                continue
+            v = paths[0].value
+            ok = isinstance(v, Tm) and 'Spectrum' in v.op
+            inner = v.args[0] if ok else None
+            lf = linear_form(inner) if ok else {}
+            keys = list(lf)
+            tr = [k for k in keys if 'trapz' in k]
+            probs = []
+            if len(tr) != 1:
+                probs.append('no single trapz term: %s' % keys)
+            else:
+                t = lf[tr[0]][0]
+                w = t.args[0]
+                xarg = t.args[1] if len(t.args) > 1 else None
+                want_w = ['op:Mult(pdf(-1*g%d), S%d)' % (i, i) for i in range(n)]
+                got_w = [vrepr(x).replace('-g', '-1*g') for x in (w.items if isinstance(w, VList) else [])]
+                if got_w != want_w:
+                    probs.append('trapz integrand %s (expected pdf(-g_i) S_i)' % got_w)
+                if not (isinstance(xarg, VList) and all(a is b for a, b in zip(xarg.items, gs))):
+                    probs.append('trapz abscissae are not the cached gammas')
+                if str(z3.simplify(lf[tr[0]][1])) != 'theta':
+                    probs.append('trapz term scaled by %s' % z3.simplify(lf[tr[0]][1]))
+            tails = [k for k in keys if k not in tr]
+            if ext:
+                neu = [k for k in tails if k.startswith('op:Mult(S_neu, getitem(call:attr:quad(lib:scipy.integrate)(<pyfn sel_dist>, 0, -1*g2,')]
+                dele = [k for k in tails if k.startswith('op:Mult(S0, getitem(call:attr:quad(lib:scipy.integrate)(<pyfn sel_dist>, -1*g0, float:inf,')]
+                if len(neu) != 1 or len(dele) != 1 or len(tails) != 2:
+                    probs.append('tail terms %s (expected S_neu*quad(pdf, 0, |g_min|) and S_0*quad(pdf, |g_max|, inf))' % tails)
+                for k_ in tails:
+                    if str(z3.simplify(lf[k_][1])) != 'theta':
+                        probs.append('tail %s scaled by %s' % (k_[:30], z3.simplify(lf[k_][1])))
+            else:
+                if tails:
+                    probs.append('exterior_int=False still adds %s' % tails)
+            out.append(struct('%s.%s' % (oid, tag), not probs, '; '.join(probs) or 'theta*(trapz(pdf(-g_i) S_i, g) %s)' % ('+ S_neu*int_0^|g_min| + S_0*int_|g_max|^inf' if ext else ''), fn,
+                              finding_key='C17/Cache1D.integrate/%s' % tag))
+        return out
+    return go()
